@@ -8,8 +8,12 @@
        minimum quota of 1 aside;
    (c) when the sum exceeds the limit (e.g. the limit was lowered) no quota grows;
    (d) a token-bucket burst is scaled with the quota and never exceeds the
-       global burst.
-   Everything below is integer arithmetic on what was sent and what was observed. *)
+       global burst;
+   and "every quota answered ... for every reported usage/request level": a report
+   whose items have the item type of the upstream's schemas is answered.
+   Everything below is integer arithmetic on what was sent and what was observed,
+   per schema; quotas of a schema are those recorded with the schema's current item
+   type (a quota of the other type is a different resource and is not counted). *)
 From KG Require Import Prelude.
 Open Scope Z_scope.
 
@@ -33,6 +37,10 @@ Definition burst_ok (is_bucket : bool) (limit gburst q b : Z) : bool :=
      else true)
   else b =? 0.
 
+(* the global-count strategy hands the global values through *)
+Definition count_ok (is_bucket : bool) (limit gburst q b : Z) : bool :=
+  (q =? limit) && (b =? (if is_bucket then gburst else 0)).
+
 (* scaling: under the same limit (>= 1) and global burst (>= 0) a larger quota never gets a smaller burst *)
 Definition mono_pair (a b : Z * Z * Z * Z) : bool :=
   match a, b with
@@ -48,74 +56,109 @@ Definition rec_sum (l : list (Z * (Z * Z))) : Z := sumZ (map (fun e => fst (snd 
 Definition above1 (q : Z) : Z := if q <=? 1 then 0 else q.
 Definition rec_sum1 (l : list (Z * (Z * Z))) : Z := sumZ (map (fun e => above1 (fst (snd e))) l).
 
-(* ---------- histories ---------- *)
-(* what was done: a batch of honest reports issued concurrently (a singleton =
-   a sequential report), a change of the global limit, the removal of an instance *)
+(* ---------- histories of one schema ---------- *)
+(* what a report of some instance means for the schema *)
+Inductive rentry :=
+| EReport (i : Z) (typed count : bool) (used level uplevel clients : Z)
+    (* an item for the schema; typed = it carries the schema's item type (else no limit member);
+       count = global-count strategy; uplevel = upstream request level on record; clients = live clients *)
+| EDrop (i : Z).     (* the report has no item for the schema: the instance's quota goes off the record *)
+
+(* a batch of honest reports issued concurrently (a singleton = a sequential report),
+   a change of the schema (limit, burst, possibly the item type), the removal of an instance *)
 Inductive bop :=
-| BReports (rs : list (Z * Z * Z * Z))       (* instance, used, level, upstream level on record *)
-| BSetLimit (limit burst : Z)
+| BReports (rs : list rentry)
+| BSet (bucket : bool) (limit burst : Z)
 | BRemove (i : Z).
 
 (* what was observed *)
 Record sobs := {
-  o_cur : list Z;                    (* the current quota each report of the batch carried *)
+  o_cur : list Z;                    (* the current quota each item of the batch carried *)
   o_ans : list (option (Z * Z));     (* the (quota, burst) answered to each; None = no answer *)
-  o_quotas : list (Z * (Z * Z));     (* the (quota, burst) on record per instance afterwards *)
-  o_rec : Z                          (* the allocated sum the server shows afterwards *)
+  o_quotas : list (Z * (Z * Z));     (* (quota, burst) on record per instance afterwards, current item type *)
+  o_oquotas : list (Z * (Z * Z));    (* ... recorded with the other item type *)
+  o_rec : Z;                         (* the allocated sum the server shows afterwards, current item type *)
+  o_orec : Z                         (* ... other item type *)
 }.
 
-Definition answered (l : list (option (Z * Z))) : list (Z * Z) :=
-  flat_map (fun a => match a with Some qb => [qb] | None => [] end) l.
+(* the count flags of the items of a batch, in order *)
+Definition item_counts (rs : list rentry) : list bool :=
+  flat_map (fun r => match r with EReport _ _ c _ _ _ _ => [c] | EDrop _ => [] end) rs.
 
-(* clause vector of one step: floor, cap, step_safe, no_growth, burst, over_commit *)
-Definition step_ok (is_bucket : bool) (limit gburst : Z) (before : list (Z * (Z * Z)))
+(* answers of the batch with the given strategy flag *)
+Fixpoint answers_with (flag : bool) (cs : list bool) (ans : list (option (Z * Z))) : list (Z * Z) :=
+  match cs, ans with
+  | c :: cs', Some qb :: ans' => if Bool.eqb c flag then qb :: answers_with flag cs' ans' else answers_with flag cs' ans'
+  | _ :: cs', None :: ans' => answers_with flag cs' ans'
+  | _, _ => []
+  end.
+
+Definition all_answered (cs : list bool) (ans : list (option (Z * Z))) : bool :=
+  (List.length cs =? List.length ans)%nat && forallb (fun a => match a with Some _ => true | None => false end) ans.
+
+(* clause vector of one step: answered, floor, cap, step_safe, no_growth, burst, over_commit, count *)
+Definition step_ok (is_bucket : bool) (limit gburst : Z) (before obefore : list (Z * (Z * Z)))
            (o : bop) (b : sobs) : list bool :=
   let after := o_quotas b in
   match o with
   | BReports rs =>
-      let ans := answered (o_ans b) in
-      [ forallb (fun qb => floor_ok (fst qb)) ans;
-        forallb (fun qb => cap_ok limit (fst qb)) ans;
-        match o_ans b with
-        | [Some (q, _)] => step_safe_ok limit (rec_sum before) (rec_sum after) q
-        | _ => true
-        end;
-        match o_ans b, o_cur b with
-        | [Some (q, _)], [c] => no_growth_ok limit (rec_sum before) c q
+      let cs := item_counts rs in
+      let alloc := answers_with false cs (o_ans b) in
+      let cnt := answers_with true cs (o_ans b) in
+      [ all_answered cs (o_ans b);
+        forallb (fun qb => floor_ok (fst qb)) alloc;
+        forallb (fun qb => cap_ok limit (fst qb)) alloc;
+        match rs, o_ans b with
+        | [EReport _ _ false _ _ _ _], [Some (q, _)] => step_safe_ok limit (rec_sum before) (rec_sum after) q
         | _, _ => true
         end;
-        forallb (fun qb => burst_ok is_bucket limit gburst (fst qb) (snd qb)) ans;
-        rec_sum1 after <=? Z.max limit (rec_sum1 before) ]
-  | BSetLimit n g =>
-      [true; true; true; true; true; rec_sum1 after <=? Z.max n (rec_sum1 before)]
+        match rs, o_ans b, o_cur b with
+        | [EReport _ _ false _ _ _ _], [Some (q, _)], [c] => no_growth_ok limit (rec_sum before) c q
+        | _, _, _ => true
+        end;
+        forallb (fun qb => burst_ok is_bucket limit gburst (fst qb) (snd qb)) alloc;
+        match cnt with
+        | [] => rec_sum1 after <=? Z.max limit (rec_sum1 before)
+        | _ => true                     (* count-strategy answers are not quotas *)
+        end;
+        forallb (fun qb => count_ok is_bucket limit gburst (fst qb) (snd qb)) cnt ]
+  | BSet bk n g =>
+      (* a change of the item type brings the quotas recorded with that type back into the sum *)
+      let before' := if Bool.eqb bk is_bucket then before else obefore in
+      [true; true; true; true; true; true; rec_sum1 after <=? Z.max n (rec_sum1 before'); true]
   | BRemove _ =>
-      [true; true; true; true; true; rec_sum1 after <=? Z.max limit (rec_sum1 before)]
+      [true; true; true; true; true; true; rec_sum1 after <=? Z.max limit (rec_sum1 before); true]
   end.
 
-Definition limit_after (limit gburst : Z) (o : bop) : Z * Z :=
-  match o with BSetLimit n g => (n, g) | _ => (limit, gburst) end.
+Definition cfg_after (is_bucket : bool) (limit gburst : Z) (o : bop) : bool * Z * Z :=
+  match o with BSet bk n g => (bk, n, g) | _ => (is_bucket, limit, gburst) end.
 
 Definition and_rows (a b : list bool) : list bool :=
   map (fun p => andb (fst p) (snd p)) (combine a b).
 
-(* fold over the trace; also collects (limit, gburst, quota, burst) of every answer *)
-Fixpoint hist_rows (is_bucket : bool) (limit gburst : Z) (before : list (Z * (Z * Z)))
+Definition all8 : list bool := [true; true; true; true; true; true; true; true].
+
+(* fold over the trace; also collects (limit, gburst, quota, burst) of every allocate answer of a token bucket *)
+Fixpoint hist_rows (is_bucket : bool) (limit gburst : Z) (before obefore : list (Z * (Z * Z)))
          (tr : list (bop * sobs)) : list bool * list (Z * Z * Z * Z) :=
   match tr with
-  | [] => ([true; true; true; true; true; true], [])
+  | [] => (all8, [])
   | (o, b) :: r =>
-      let row := step_ok is_bucket limit gburst before o b in
+      let row := step_ok is_bucket limit gburst before obefore o b in
       let ans := match o with
-                 | BReports _ => map (fun qb => (limit, gburst, fst qb, snd qb)) (answered (o_ans b))
+                 | BReports rs =>
+                     if is_bucket
+                     then map (fun qb => (limit, gburst, fst qb, snd qb)) (answers_with false (item_counts rs) (o_ans b))
+                     else []
                  | _ => []
                  end in
-      let (l', g') := limit_after limit gburst o in
-      let (rows, answers) := hist_rows is_bucket l' g' (o_quotas b) r in
+      let '(bk', l', g') := cfg_after is_bucket limit gburst o in
+      let (rows, answers) := hist_rows bk' l' g' (o_quotas b) (o_oquotas b) r in
       (and_rows row rows, ans ++ answers)
   end.
 
-(* clauses: floor, cap, step_safe, no_growth, burst, over_commit, burst_mono *)
-Definition hist_ok (is_bucket : bool) (limit gburst : Z) (before : list (Z * (Z * Z)))
+(* clauses: answered, floor, cap, step_safe, no_growth, burst, over_commit, count, burst_mono *)
+Definition hist_ok (is_bucket : bool) (limit gburst : Z) (before obefore : list (Z * (Z * Z)))
            (tr : list (bop * sobs)) : list bool :=
-  let (rows, answers) := hist_rows is_bucket limit gburst before tr in
-  rows ++ [if is_bucket then burst_mono_ok answers else true].
+  let (rows, answers) := hist_rows is_bucket limit gburst before obefore tr in
+  rows ++ [burst_mono_ok answers].
